@@ -11,8 +11,9 @@ def hAll : Handler := fun a =>
   let mx := match isMaximal G with
     | .ok b => fmtBool b
     | .error e => "err:" ++ e
-  -- on cyclic graphs m-separation is undefined: the definitional deciders that need it print `-`
-  let mxd := if cyc then "-" else fmtBool (maximalDec G)
+  -- `maximalDec` decides `Maximal` on every graph without undirected edges and self loops (`maximalDec_iff`
+  -- has no acyclicity hypothesis: path-level m-separation is defined on cyclic graphs too)
+  let mxd := fmtBool (maximalDec G)
   " ".intercalate [fmtBool (validMag G), fmtBool (validMagDec G), mx, mxd, fmtBool (hasAdc G),
     fmtBool (ancestralDec G), fmtBool cyc]
 
